@@ -133,6 +133,18 @@ func c07programs() []c07prog {
 			c.Defs = []eng.EventDef{{Kind: "timer", Sub: "cycle", Name: "R3/PT3H"}}
 			g.Wrap(g.Seq(eng.Frag{Entry: c, Exit: c}, g.Task("task", "A", "")))
 		}},
+		// a cycle with an EXPLICIT START that is not reached at any cancellation point (the timer waits for its start
+		// first, then for its repetitions): on the host clock and on the mock clock
+		{name: "hostcyclestart", pts: 10, timer: true, host: true, build: func(g *eng.Graph) {
+			c := g.Add("intermediateCatchEvent", "T1", "")
+			c.Defs = []eng.EventDef{{Kind: "timer", Sub: "cycle", Name: "R3/2099-01-01T00:00:00Z/PT3H"}}
+			g.Wrap(g.Seq(eng.Frag{Entry: c, Exit: c}, g.Task("task", "A", "")))
+		}},
+		{name: "cyclestart", pts: 21, timer: true, build: func(g *eng.Graph) {
+			c := g.Add("intermediateCatchEvent", "T1", "")
+			c.Defs = []eng.EventDef{{Kind: "timer", Sub: "cycle", Name: "R2/2099-01-01T00:00:00Z/PT5S"}}
+			g.Wrap(g.Seq(g.Task("task", "A", ""), eng.Frag{Entry: c, Exit: c}, g.Task("task", "B", "")))
+		}},
 		{name: "hostbndtimer", pts: 14, timer: true, host: true, build: func(g *eng.Graph) {
 			a := g.Task("task", "A", "")
 			g.Wrap(a)
